@@ -184,6 +184,7 @@ def _nontrivial(status, feats, stats):
 
 
 _prun, _pplan, _preplay, _pshrink = P.make(PID, check_program, _nontrivial)
+PROG_BUILD = _prun.build
 
 # --------------------------------------------------------------------------
 # G4: AST-payload graphs
@@ -322,8 +323,8 @@ def run(spec):
 
 def plan(tier, seed):
     if tier == "quick":
-        return _pplan(tier, seed, quick=(150, 0, 0, 40, 1)) + [("g4", seed, s, 120, 10) for s in range(16)] + [("reuse", seed, s, 40) for s in range(8)]
-    return _pplan(tier, seed, thorough=(2000, 0, 0, 300, 2)) + [("g4", seed, s, 1500, 16) for s in range(32)] + [("reuse", seed, s, 600) for s in range(16)]
+        return _pplan(tier, seed, quick=(150, 0, 0, 40, 1), fuzz_mod=__name__) + [("g4", seed, s, 120, 10) for s in range(16)] + [("reuse", seed, s, 40) for s in range(8)]
+    return _pplan(tier, seed, thorough=(2000, 0, 0, 300, 2), fuzz_mod=__name__) + [("g4", seed, s, 1500, 16) for s in range(32)] + [("reuse", seed, s, 600) for s in range(16)]
 
 
 def replay(inp):
